@@ -92,7 +92,12 @@ class ConstantFolder(BlockPass):
 
             if self.is_const(instruction):
                 # Now we can replace x = (4+5) with x = 9
-                cnst = self.eval_const(instruction)
+                try:
+                    cnst = self.eval_const(instruction)
+                except (ZeroDivisionError, ValueError):
+                    # Division by zero or negative shift amount, leave this
+                    # for run time:
+                    continue
                 block.insert_instruction(cnst, before_instruction=instruction)
                 instruction.replace_by(cnst)
                 count += 1
